@@ -58,7 +58,7 @@ def main():
                        models.T([[1, "A", 0, 0], [1, "A", 0, 1], [0, "B", 0, 1], [0, "B", 0, 0]], 4)])
     add(ph, {"mode": "custom", "ops": [[[1, 10, [0]], [2, 10, [1]], [3, 10, [2]], [0, 10, [3]]]]}, "custom-nondyadic:pairhop")
 
-    recs, crashed = pv.run_driver_resilient(exe, scen, timeout=3000)
+    recs, crashed = pv.run_driver_resilient(exe, scen, timeout=3000, scen_timeout=180)
     byid = {r["id"]: r for r in recs if r.get("e") == "Q"}
     ev, sc_of = [], {}
     for s in scen:
